@@ -155,6 +155,26 @@ def toolSubseq (a : Ascii) (ssi : Ssi) (newname : Option Bytes) (k : Bytes) (gs 
   let (sq, stR, _) := if rc then revcomp sq else (sq, Status.ok, false)
   if stR != .ok then (a, none) else (a, some (writeFasta sq))
 
+/-- esl-sfetch `onefetch` without an index: read sequentially until the name or accession matches, then Echo the record -/
+def scanFetchLoop : Nat → Ascii → Bytes → Option (Ascii × Sq)
+  | 0, _, _ => none
+  | fuel + 1, a, key =>
+    let (a, sq, st) := read a (freshSq 0)
+    if st != .ok then none
+    else if cstr sq.name == key || cstr sq.acc == key then some (a, sq)
+    else scanFetchLoop fuel a key
+
+/-- esl-sfetch `multifetch` without an index: read everything, write (FASTA) the records whose name or accession is a key -/
+def scanMultiLoop : Nat → Ascii → List Bytes → List UInt8 → Nat → Option (List UInt8 × Nat)
+  | 0, _, _, _, _ => none
+  | fuel + 1, a, keys, out, nseq =>
+    let (a, sq, st) := read a (freshSq 0)
+    if st == .eof then some (out, nseq)
+    else if st != .ok then none
+    else if ((cstr sq.name).size > 0 && keys.contains (cstr sq.name)) || ((cstr sq.acc).size > 0 && keys.contains (cstr sq.acc)) then
+      scanMultiLoop fuel a keys (out ++ writeFasta sq) (nseq + 1)
+    else scanMultiLoop fuel a keys out nseq
+
 def withA (s : DS) (f : Ascii → DS × String) : DS × String :=
   if s.unmodelled then (s, "unmodelled") else
   if s.dead then (s, "dead") else
@@ -284,6 +304,13 @@ def step (s : DS) (line : String) : DS × String :=
           let (a, st, out) := echo a sq
           if st != .ok then ({ s with a := some a, dead := true }, "tool-fatal") else
           ({ s with a := some a }, s!"ok hex={hexB out}")
+    | some k, none => withA s fun a =>
+        match scanFetchLoop (s.file.size + 2) a k.toArray with
+        | none => ({ s with a := some a, dead := true }, "tool-fatal")
+        | some (a, sq) =>
+          let (a, st, out) := echo a sq
+          if st != .ok then ({ s with a := some a, dead := true }, "tool-fatal") else
+          ({ s with a := some a }, s!"ok hex={hexB out}")
     | _, _ => (s, if s.unmodelled then "unmodelled" else "bad-op")
   | "toolmulti" :: _ =>
     match argHex? ws "text", s.ssi with
@@ -305,6 +332,13 @@ def step (s : DS) (line : String) : DS × String :=
         match r with
         | (a, some out) => ({ s with a := some a }, s!"ok hex={hexOrDash out}")
         | (a, none) => ({ s with a := some a, dead := true }, "tool-fatal")
+    | some txt, none => withA s fun a =>
+        let keys := ((fileTokens txt).filterMap List.head?).map List.toArray
+        match scanMultiLoop (s.file.size + 2) a keys [] 0 with
+        | some (out, nseq) =>
+          if nseq != keys.length then ({ s with a := none, dead := true }, "tool-fatal")
+          else ({ s with dead := true }, s!"ok hex={hexOrDash out}")
+        | none => ({ s with dead := true }, "tool-fatal")
     | _, _ => (s, if s.unmodelled then "unmodelled" else "bad-op")
   | "toolmultisub" :: _ =>
     match argHex? ws "text", s.ssi with
